@@ -5,16 +5,53 @@ import (
 	"net/netip"
 
 	"github.com/AdguardTeam/golibs/timeutil"
+	"github.com/c2h5oh/datasize"
 )
 
 // validatePositive returns an error if v is not a positive number.  prop is the
 // name of the property being checked, used for error messages.
 func validatePositive[T numberOrDuration](prop string, v T) (err error) {
-	if d, ok := any(v).(timeutil.Duration); ok && d.Duration <= 0 {
+	if !isPositive(v) {
 		return newNotPositiveError(prop, v)
 	}
 
 	return nil
+}
+
+// isPositive returns true if v is greater than zero.  Values of integer types
+// that are not listed here are reported as not positive, so that a new type
+// cannot pass validation unchecked.
+func isPositive[T numberOrDuration](v T) (ok bool) {
+	switch v := any(v).(type) {
+	case timeutil.Duration:
+		return v.Duration > 0
+	case datasize.ByteSize:
+		return v > 0
+	case int:
+		return v > 0
+	case int8:
+		return v > 0
+	case int16:
+		return v > 0
+	case int32:
+		return v > 0
+	case int64:
+		return v > 0
+	case uint:
+		return v > 0
+	case uint8:
+		return v > 0
+	case uint16:
+		return v > 0
+	case uint32:
+		return v > 0
+	case uint64:
+		return v > 0
+	case uintptr:
+		return v > 0
+	default:
+		return false
+	}
 }
 
 // validateProp returns an error wrapped with prop name if the given validator
